@@ -30,7 +30,13 @@ RAW, LOWER, RAWLIST, LOWERLIST, NOCASE, CONST_L, CONST_M, UNKNOWN = \
 NAME_ATTRS = {'classname', 'superclass', 'class_origin', 'reference_class'}
 # DSP0200 parameters of the public provider operations that are CIM names
 API_NAME_PARAMS = {'ClassName': RAW, 'AssocClass': RAW, 'ResultClass': RAW,
-                   'Role': RAW, 'ResultRole': RAW, 'PropertyList': RAWLIST}
+                   'Role': RAW, 'ResultRole': RAW, 'PropertyList': RAWLIST,
+                   # a CIMInstance iterates over / looks up its property
+                   # names like a NocaseDict
+                   'NewInstance': NOCASE, 'ModifiedInstance': NOCASE}
+# attributes of the CIM object classes that are NocaseDict
+NOCASE_ATTRS = {'properties', 'keybindings', 'qualifiers', 'methods',
+                'parameters'}
 FOLD_METHODS = {'lower', 'casefold'}
 NOCASE_CTORS = {'NocaseList', 'NocaseDict'}
 STR_PRESERVING = {'strip', 'lstrip', 'rstrip'}
@@ -149,6 +155,13 @@ class Kinds:
                     mark(st, path)
                     for t in st.targets:
                         bind(t, path, st.value, 'value', st, _pos(st, True))
+                        # d[key] = v adds `key` to the container d
+                        if isinstance(t, ast.Subscript) and \
+                                isinstance(t.value, ast.Name) and \
+                                not isinstance(t.slice, ast.Slice):
+                            out.append(_Def(_pos(st, True), t.value.id,
+                                            False, t.slice, 'append', st,
+                                            path))
                 elif isinstance(st, ast.AnnAssign) and st.value is not None:
                     mark(st, path)
                     bind(st.target, path, st.value, 'value', st,
@@ -317,11 +330,27 @@ class Kinds:
         if extra and name in extra:
             return extra[name]
         if name in self.object_names(func):
-            return UNKNOWN
+            # holds an object, not a name string; it may still be one that
+            # behaves as a case-insensitive container (CIMInstance)
+            k = self._reaching(func, name, pos, extra, node)
+            return k if k == NOCASE else UNKNOWN
+        return self._reaching(func, name, pos, extra, node)
+
+    def _reaching(self, func, name, pos, extra, node):
         alld = self.defs(func)
         upath = self._blocks[func.fq].get(id(node)) if node is not None \
             else None
         ds = [d for d in alld if d.name == name and d.pos <= pos]
+        # element additions after the use (loop-carried: `if n not in seen:
+        # seen.add(n)`) belong to the same container as long as the name is
+        # not re-bound in between
+        for d in alld:
+            if d.name != name or d.pos <= pos:
+                continue
+            if d.how in ('append', 'extend'):
+                ds.append(d)
+            else:
+                break
         start = None
         base = []
         for i, d in enumerate(ds):
@@ -411,6 +440,9 @@ class Kinds:
         if isinstance(e, ast.Attribute):
             if e.attr in NAME_ATTRS:
                 return RAW
+            if e.attr in NOCASE_ATTRS and not (
+                    isinstance(e.value, ast.Name) and e.value.id == 'self'):
+                return NOCASE
             if isinstance(e.value, ast.Name) and e.value.id == 'self' and \
                     func.cls is not None:
                 return self.self_attr_kind(func.cls, e.attr)
@@ -430,19 +462,26 @@ class Kinds:
             simple = d.split('.')[-1] if d else None
             if simple in NOCASE_CTORS:
                 return NOCASE
-            if simple in ('list', 'set', 'sorted', 'tuple', 'frozenset'):
+            if simple in ('list', 'set', 'sorted', 'tuple', 'frozenset',
+                          'dict', 'OrderedDict'):
                 if not e.args:
                     return None
                 k = self.kind(e.args[0], func, extra)
                 if k == NOCASE:
                     return RAWLIST
                 return k if k in (RAWLIST, LOWERLIST, None) else UNKNOWN
-            if simple == 'str' and len(e.args) == 1:
+            if simple in ('str', 'deepcopy') and len(e.args) == 1:
                 return self.kind(e.args[0], func, extra)
             target = self.resolve(e, func)
             if target is not None:
                 return self.ret.get(target.fq)
             return UNKNOWN
+        if isinstance(e, ast.Dict):
+            if not e.keys:
+                return None
+            if any(k is None for k in e.keys):
+                return UNKNOWN
+            return coll(join([self.kind(x, func, extra) for x in e.keys]))
         if isinstance(e, (ast.List, ast.Set, ast.Tuple)):
             if not e.elts:
                 return None
@@ -655,7 +694,8 @@ def run_name_rules(repo, rep, rr_cmp, rr_uncalled, scope):
     """Apply the comparison rule and the uncalled-method rule to every
     function selected by scope(func) -> bool."""
     from .model import norm
-    kinds = Kinds(repo, MOCK_MODULES, api_classes=('MainProvider',))
+    kinds = Kinds(repo, MOCK_MODULES, api_classes=(
+        'MainProvider', 'ProviderDispatcher', 'InstanceWriteProvider'))
     for f in kinds.funcs:
         if not scope(f):
             continue
@@ -664,9 +704,31 @@ def run_name_rules(repo, rep, rr_cmp, rr_uncalled, scope):
         for nt in notes:
             if nt not in rr_cmp.notes:
                 rr_cmp.notes.append(nt)
+        # lexical-case adjustment idiom: `if a != b: x.name = b` rewrites
+        # the spelling of a name that was already matched - the comparison
+        # is case-sensitive on purpose
+        adjust = set()
+        for st in walk_no_nested(f.node):
+            if isinstance(st, ast.If) and isinstance(st.test, ast.Compare) \
+                    and len(st.test.ops) == 1 and \
+                    isinstance(st.test.ops[0], ast.NotEq) and \
+                    len(st.body) == 1 and not st.orelse and \
+                    isinstance(st.body[0], ast.Assign) and \
+                    isinstance(st.body[0].targets[0], ast.Attribute) and \
+                    st.body[0].targets[0].attr in ('name', 'classname') and \
+                    norm(st.body[0].value) in (
+                        norm(st.test.left), norm(st.test.comparators[0])):
+                adjust.add(id(st.test))
         for node, l, op, r, lk, rk in comparisons(kinds, f):
             verdict, why = judge(op, lk, rk)
             if verdict == 'n/a':
+                continue
+            if id(node) in adjust:
+                rr_cmp.ob(True, '%s|%s|adjust' % (f.qualname,
+                                                  norm(node, 100)),
+                          {'function': f.qualname,
+                           'compare': norm(node, 100),
+                           'verdict': 'lexical-case adjustment idiom'})
                 continue
             if id(node) in dead:
                 rr_cmp.ob(True, '%s|%s|dead' % (f.qualname, norm(node, 100)),
